@@ -440,6 +440,8 @@ class Interp:
                 # the class's constructor defines this attribute but the object at hand (built by a sidecar setup) lacks it:
                 # the sidecar is behind the source -> undecided, never the program's AttributeError
                 raise Unsupported('attribute %s is assigned by %s.__init__ but missing from the pre-state built by the sidecar' % (name, v.cls.name))
+            if hasattr(object, name):
+                raise Unsupported('%s (inherited from object) is not modelled' % name)
             self.ctx.raise_exc('AttributeError', '%r has no attribute %s' % (v, name))
         if isinstance(v, SymObj):
             key = (v.cls.name, name)
@@ -462,6 +464,17 @@ class Interp:
             la = self.lib.class_attr(self, v, name)
             if la is not None:
                 return la
+            if name == '__new__':
+                # object.__new__ (no class of the mro defines its own): a bare instance, the constructor is NOT run
+                def _object_new(ip, cls, *a, **k):
+                    if not isinstance(cls, ClassVal):
+                        raise Unsupported('object.__new__ of %r' % (cls,))
+                    return Obj(cls.info, {})
+                return Builtin('object.__new__', _object_new)
+            if hasattr(type, name) or hasattr(object, name):
+                # every class has this attribute (inherited from object / type) but the engine has no model of it:
+                # undecided, never the program's AttributeError
+                raise Unsupported('%s.%s (inherited from object/type) is not modelled' % (v.info.name, name))
             self.ctx.raise_exc('AttributeError', 'class %s has no attribute %s' % (v.info.name, name))
         if isinstance(v, ModuleVal):
             if v.name.startswith('repo:'):
